@@ -128,8 +128,14 @@ def run(ctx, rep):
     rep.rule('R6', 'Prepend / Delimiter arms of the delta application (shared with C04.R5): value [+ delimiter + previous if non-empty], on every path')
     C04.arm_rules(ctx, rep, rule='R6', only=('Prepend', 'Delimiter', 'delimiter-lookup'))
     # ---- R4 ----------------------------------------------------------------------------------------
-    f, table, info = L.apply_scope_table(prog, sl)
+    from . import C04_helpers as H4     # per-Scope evaluation of LayerEnv::apply (independent of how the fold is spelled)
+    f, table, why4, _shape = H4.scope_tables(prog)
+    for variant in sorted(table):
+        if table[variant] is None:
+            rep.unproven('R4', 'apply/' + variant, '%s:%d' % (f.file, f.line), 'delta list of Scope::%s not understood: %s' % (variant, why4.get(variant)))
     for variant, seq in table.items():
+        if seq is None:
+            continue
         for fld, only in (('layer_paths_build', 'Build'), ('layer_paths_launch', 'Launch')):
             if variant == only:
                 rep.check(seq.count(fld) == 1 and seq[-1] == fld, 'R4', 'apply/%s/%s' % (variant, fld), '%s:%d' % (f.file, f.line),
